@@ -7,6 +7,16 @@ From EV Require Import Base.Bytes Base.Codec Model.Tx Model.Block Model.Sizes Pr
 Import ListNotations.
 Open Scope N_scope.
 
+(* The scale factors and discounts of the model are those of the source now (Gen/Tables.v is regenerated on every run). *)
+From EV Require Gen.Tables Proofs.TablesTie.
+Theorem C12_constants_from_source : forall t o,
+  tx_weight t = scaled_size Tables.c12_weight_scale t /\ tx_size t = scaled_size Tables.c12_size_scale t
+  /\ tx_vsize t = (tx_weight t + (Tables.c12_vsize_div - 1)) / Tables.c12_vsize_div
+  /\ discount_vsize t = (discount_weight t + (Tables.c12_discount_vsize_div - 1)) / Tables.c12_discount_vsize_div
+  /\ output_discount o = (output_wit o - Tables.c12_discount_witness_keep) + (if value_is_conf (out_value o) then Tables.c12_discount_value else 0)
+                         + (if nonce_is_conf (out_nonce o) then Tables.c12_discount_nonce else 0).
+Proof. intros t o. repeat split; reflexivity. Qed.
+
 Section C12.
 Variable pt_ok : bytes -> bool.
 Variables maxvec cap_txin cap_txout cap_vecu8 cap_tx : N.
